@@ -108,14 +108,158 @@ struct Ctx7 {
     ext_sets: HashMap<u32, &'static str>,
 }
 
+/// A float token must *read back* to exactly the literal (the statement prescribes "as floats", not a
+/// spelling): decimal, exponent and C99 hexadecimal-float spellings are read; `0x1p+128` style (value
+/// beyond the format's range) reads as infinity. Expected float tokens are therefore markers compared
+/// semantically by `tok_eq`, not strings.
+const FMARK: char = '\u{1}';
+
+fn parse_hex_float(t: &str) -> Option<f64> {
+    let (neg, r) = match t.strip_prefix('-') {
+        Some(r) => (true, r),
+        None => (false, t.strip_prefix('+').unwrap_or(t)),
+    };
+    let r = r.strip_prefix("0x").or_else(|| r.strip_prefix("0X"))?;
+    let (m, e) = r.split_once(|c| c == 'p' || c == 'P')?;
+    let exp: i32 = e.parse().ok()?;
+    let (ip, fp) = m.split_once('.').unwrap_or((m, ""));
+    if ip.is_empty() && fp.is_empty() {
+        return None;
+    }
+    let mut mant: u128 = 0;
+    for c in ip.chars().chain(fp.chars()) {
+        mant = mant.checked_mul(16)?.checked_add(c.to_digit(16)? as u128)?;
+    }
+    let e2 = exp - 4 * fp.len() as i32;
+    if mant >= (1u128 << 64) {
+        return None;
+    }
+    let v = (mant as f64) * 2f64.powi(e2);
+    Some(if neg { -v } else { v })
+}
+
+fn f16_to_f32(h: u16) -> f32 {
+    let sign = ((h >> 15) & 1) as u32;
+    let exp = ((h >> 10) & 0x1f) as i32;
+    let man = (h & 0x3ff) as u32;
+    let v = if exp == 0 {
+        (man as f32) * 2f32.powi(-24)
+    } else if exp == 31 {
+        if man == 0 { f32::INFINITY } else { f32::NAN }
+    } else {
+        (1.0 + man as f32 / 1024.0) * 2f32.powi(exp - 15)
+    };
+    if sign == 1 { -v } else { v }
+}
+
+/// the 32-bit float a token denotes (exactly), if any
+fn tok_f32(t: &str) -> Option<f32> {
+    if let Some(v) = parse_hex_float(t) {
+        let f = v as f32;
+        return if f.is_infinite() || f as f64 == v { Some(f) } else { None };
+    }
+    if t.chars().any(|c| c == 'x' || c == 'X') {
+        return None;
+    }
+    t.parse::<f32>().ok()
+}
+
+fn tok_f64(t: &str) -> Option<f64> {
+    if let Some(v) = parse_hex_float(t) {
+        return Some(v);
+    }
+    if t.chars().any(|c| c == 'x' || c == 'X') {
+        return None;
+    }
+    t.parse::<f64>().ok()
+}
+
+/// How this tree spells a literal of a 16-bit float type: as the IEEE half value of the low 16 bits
+/// (`Half`), or as the f32 with the word's bit pattern (`Bits`, what the pinned tree does). Learned
+/// once from the library itself; the statement ("floats according to the declared type") admits
+/// both, and unambiguity is judged by the read-back and neighbour clauses either way.
+#[derive(Clone, Copy, PartialEq, Debug)]
+enum F16 {
+    Bits,
+    Half,
+    Unknown,
+}
+
+fn f16_convention() -> F16 {
+    static C: std::sync::OnceLock<F16> = std::sync::OnceLock::new();
+    *C.get_or_init(|| {
+        let r = catch(|| {
+            let mut b = dr::Builder::new();
+            let t = b.type_float(16, None);
+            let c = b.constant_bit32(t, 0x3c00);
+            let text = b.module().disassemble();
+            text.lines().find(|l| l.contains("OpConstant") && l.contains(&format!("%{} =", c))).and_then(|l| tokenize(l).last().cloned())
+        });
+        match r {
+            Ok(Some(tok)) => match tok_f32(&tok) {
+                Some(v) if v == 1.0 => F16::Half,
+                Some(v) if v.to_bits() == 0x3c00 => F16::Bits,
+                _ => F16::Unknown,
+            },
+            _ => F16::Unknown,
+        }
+    })
+}
+
+fn float_bits32(t: &str, width: u32) -> Vec<u32> {
+    // every word the token may stand for under the conventions this tree may use
+    let Some(f) = tok_f32(t) else { return vec![] };
+    let mut out = vec![];
+    let conv = if width == 16 { f16_convention() } else { F16::Bits };
+    if conv != F16::Half {
+        out.push(f.to_bits());
+    }
+    if width == 16 && conv != F16::Bits {
+        for h in 0..=0xffffu32 {
+            // exact inverse of the half decoding (65 536 candidates, only reached for 16-bit floats)
+            let d = f16_to_f32(h as u16);
+            if d.to_bits() == f.to_bits() || (d == f && d != 0.0) {
+                out.push(h);
+            }
+        }
+    }
+    out
+}
+
+fn tok_eq(got: &str, want: &str) -> bool {
+    let Some(m) = want.strip_prefix(FMARK) else { return got == want };
+    let mut it = m.split(':');
+    let (kind, width, bits) = (it.next().unwrap_or(""), it.next().and_then(|x| x.parse::<u32>().ok()).unwrap_or(32), it.next().and_then(|x| x.parse::<u64>().ok()).unwrap_or(0));
+    match kind {
+        "F32" => float_bits32(got, width).contains(&(bits as u32)),
+        "F64" => tok_f64(got).map(|v| v.to_bits()) == Some(bits),
+        _ => false,
+    }
+}
+
+fn show_want(w: &str) -> String {
+    match w.strip_prefix(FMARK) {
+        None => w.to_string(),
+        Some(m) => {
+            let p: Vec<&str> = m.split(':').collect();
+            let bits: u64 = p.get(2).and_then(|x| x.parse().ok()).unwrap_or(0);
+            if p.first() == Some(&"F64") {
+                format!("<a float token reading back to {:?}>", f64::from_bits(bits))
+            } else {
+                format!("<a float token reading back to the {}-bit float literal {:#x} (as f32 bits: {:?})>", p.get(1).unwrap_or(&"32"), bits, f32::from_bits(bits as u32))
+            }
+        }
+    }
+}
+
 fn typed_literal(ty: Option<Ty>, o: &Operand) -> Option<String> {
     Some(match (ty?, o) {
         (Ty::Int(_, true), Operand::LiteralBit32(v)) => format!("{}", *v as i32),
         (Ty::Int(_, false), Operand::LiteralBit32(v)) => format!("{}", v),
-        (Ty::Float(_), Operand::LiteralBit32(v)) => format!("{}", f32::from_bits(*v)),
+        (Ty::Float(w), Operand::LiteralBit32(v)) => format!("{}F32:{}:{}", FMARK, w, v),
         (Ty::Int(_, true), Operand::LiteralBit64(v)) => format!("{}", *v as i64),
         (Ty::Int(_, false), Operand::LiteralBit64(v)) => format!("{}", v),
-        (Ty::Float(_), Operand::LiteralBit64(v)) => format!("{}", f64::from_bits(*v)),
+        (Ty::Float(w), Operand::LiteralBit64(v)) => format!("{}F64:{}:{}", FMARK, w, v),
         _ => return None,
     })
 }
@@ -235,8 +379,11 @@ impl<'a> Reader<'a> {
             match (ty, words) {
                 (Some(Ty::Int(_, true)), 1) => Operand::LiteralBit32(t.parse::<i32>().ok()? as u32),
                 (Some(Ty::Int(_, true)), _) => Operand::LiteralBit64(t.parse::<i64>().ok()? as u64),
-                (Some(Ty::Float(_)), 1) => Operand::LiteralBit32(t.parse::<f32>().ok()?.to_bits()),
-                (Some(Ty::Float(_)), _) => Operand::LiteralBit64(t.parse::<f64>().ok()?.to_bits()),
+                (Some(Ty::Float(w)), 1) => {
+                    // one candidate once this tree's 16-bit spelling is known (learned by a probe)
+                    Operand::LiteralBit32(*float_bits32(t, w).first()?)
+                }
+                (Some(Ty::Float(_)), _) => Operand::LiteralBit64(tok_f64(t)?.to_bits()),
                 (_, 1) => Operand::LiteralBit32(t.parse::<u32>().ok()?),
                 _ => Operand::LiteralBit64(t.parse::<u64>().ok()?),
             }
@@ -421,7 +568,7 @@ fn read_line(toks: &[String], cx: &Ctx7, in_block: bool) -> Option<dr::Instructi
     if r.left() != 0 {
         return None;
     }
-    Some(dr::Instruction::new(spirv::Op::from_u32(gi.opcode)?, rtype, rid, r.ops))
+    Some(crate::rs::mk_inst(spirv::Op::from_u32(gi.opcode)?, rtype, rid, r.ops))
 }
 
 // ---------------------------------------------------------------------------
@@ -541,9 +688,9 @@ pub fn check_module(m: &dr::Module, st: &mut Stats, decoded: &dyn Fn() -> String
         let Some(want) = expected_tokens(inst, &cx, in_block) else {
             return Err(wrap(Fail::new("harness", "expected_tokens", format!("no expected rendering for {}", show_inst(inst)))));
         };
-        if toks != want {
+        if toks.len() != want.len() || toks.iter().zip(&want).any(|(a, b)| !tok_eq(a, b)) {
             // which operand kind differs?
-            let pos = toks.iter().zip(&want).position(|(a, b)| a != b).unwrap_or(toks.len().min(want.len()));
+            let pos = toks.iter().zip(&want).position(|(a, b)| !tok_eq(a, b)).unwrap_or(toks.len().min(want.len()));
             let head = inst.result_id.map(|_| 2).unwrap_or(0) + 1 + inst.result_type.is_some() as usize;
             let disc = if pos < head {
                 "line-head".to_string()
@@ -553,7 +700,7 @@ pub fn check_module(m: &dr::Module, st: &mut Stats, decoded: &dyn Fn() -> String
             return Err(wrap(Fail::new(
                 "line-rendering",
                 format!("{}:{}", if inst.class.opname == "Constant" || inst.class.opname == "ExtInst" { inst.class.opname } else { "any" }, disc),
-                format!("instruction {} is rendered as {:?}, the statement prescribes tokens {:?}", show_inst(inst), line, want),
+                format!("instruction {} is rendered as {:?}, the statement prescribes tokens {:?}", show_inst(inst), line, want.iter().map(|w| show_want(w)).collect::<Vec<_>>()),
             )));
         }
         // R6: reading the text back reconstructs the instruction exactly
